@@ -5,7 +5,7 @@ Writes /verif/seeded2/<id>/{patch.diff,zz_seed_demo_test.go,NOTES.md,meta.json}.
 import json, os, shutil, subprocess, sys
 V = os.path.dirname(os.path.dirname(os.path.abspath(__file__)))
 pid, demo_dir = sys.argv[1], sys.argv[2]
-wt = "/tmp/wt2/%s" % pid
+wt = os.path.join(os.environ.get("SEEDWT", "/tmp/wt2"), pid)
 seed = os.path.join(wt, "SEED")
 env = dict(os.environ, GOFLAGS="-mod=mod", GOPROXY="off", GOSUMDB="off", GOTOOLCHAIN="local", CGO_ENABLED="0")
 def sh(cmd, cwd=wt, timeout=1800):
